@@ -52,6 +52,18 @@ func runC20(o opts) error {
 		scns = append(scns, c20.FixedBlocks()...)
 		scns = append(scns, c20.RescaleBlocks(rng, o.tier == "thorough")...)
 		scns = append(scns, c20.FixedHist()...)
+		// follow-up families (random streams of their own)
+		scns = append(scns, c20.SheerBlocks()...)
+		scns = append(scns, c20.ThinFits()...)
+		scns = append(scns, c20.ThinHist()...)
+		scns = append(scns, c20.GeomHist()...)
+		if o.tier == "thorough" {
+			scns = append(scns, c20.GenThin(o.seed, 60)...)
+			scns = append(scns, c20.GenGeom(o.seed, 120)...)
+		} else {
+			scns = append(scns, c20.GenThin(o.seed, 6)...)
+			scns = append(scns, c20.GenGeom(o.seed, 10)...)
+		}
 	}
 	sink, err := trace.NewSink(o.out, o.shards)
 	if err != nil {
